@@ -796,20 +796,6 @@ func tplParts(tpl string) (string, error) {
 	return "[" + strings.Join(parts, ", ") + "]", nil
 }
 
-func leanBool(b bool) string {
-	if b {
-		return "true"
-	}
-	return "false"
-}
-
-func leanStrList(xs []string) string {
-	q := make([]string, len(xs))
-	for i, x := range xs {
-		q[i] = leanStr(x)
-	}
-	return "[" + strings.Join(q, ", ") + "]"
-}
 
 func init() {
 	register("Routes", func() (string, error) {
